@@ -145,10 +145,45 @@ Definition iter_items (v : val) (reversed sorted : bool) : res (option (list (va
   | _ => Ok None
   end.
 
-(* spaceless: the regexp (?U:(<.*>))([\t\n\v\f\r ]+)(?U:(<.*>)) replaced by $1$3 to a fixpoint.
-   Not modelled in general; exact on bodies without '<' (nothing matches). *)
-Definition spaceless_model (s : str) : option str :=
-  if existsb (N.eqb 60) s then None else Some s.
+(* spaceless: the regexp (?U:(<.*>))([\t\n\v\f\r ]+)(?U:(<.*>)) replaced by $1$3 to a fixpoint,
+   as a hand matcher: a white-space run is removed when the byte before it is a '>' that has
+   a '<' earlier on its line and the byte after it is a '<' that has a '>' later on its line
+   ('.' does not match a newline).  One pass works on the original string, like
+   ReplaceAllString; passes repeat until nothing changes. *)
+Definition is_ws_sl (b : N) : bool := in_rng 9 13 b || (b =? 32).
+Fixpoint gt_before_nl (s : str) : bool :=
+  match s with
+  | [] => false
+  | c :: r => if c =? 10 then false else if c =? 62 then true else gt_before_nl r
+  end.
+Fixpoint ws_run_len (s : str) : nat :=
+  match s with c :: r => if is_ws_sl c then S (ws_run_len r) else O | [] => O end.
+Fixpoint sl_pass (skip : nat) (lt_seen closing : bool) (s : str) : str * bool :=
+  match s with
+  | [] => ([], false)
+  | c :: r =>
+      let lt' := if c =? 10 then false else if c =? 60 then true else lt_seen in
+      match skip with
+      | S k => sl_pass k lt' false r
+      | O =>
+          if is_ws_sl c && closing then
+            let n := ws_run_len s in
+            match skipn n s with
+            | 60 :: after => if gt_before_nl after
+                             then (fst (sl_pass (n - 1) lt' false r), true)
+                             else let '(o, ch) := sl_pass 0 lt' false r in (c :: o, ch)
+            | _ => let '(o, ch) := sl_pass 0 lt' false r in (c :: o, ch)
+            end
+          else
+            let '(o, ch) := sl_pass 0 lt' ((c =? 62) && lt_seen) r in (c :: o, ch)
+      end
+  end.
+Fixpoint sl_fix (fuel : nat) (s : str) : str :=
+  match fuel with
+  | O => s
+  | S f => let '(o, ch) := sl_pass 0 false false s in if ch then sl_fix f o else o
+  end.
+Definition spaceless_model (s : str) : option str := Some (sl_fix (S (length s)) s).
 
 (* cycleOutput *)
 Definition cycle_out (fr : frame) (item : expr) (v : value) (st : mstate) : xres :=
